@@ -53,6 +53,8 @@ GLOBALS_BASE.update({repr(v): v for v in AN.values()})
 def dv_id(value):
     if value is inspect.Parameter.empty:
         return 0
+    if type(value) is Unusual:
+        return value.verif_dv_id
     if value is None:
         return 1
     if isinstance(value, Sentinel) and value.tag == 'D':
@@ -60,9 +62,44 @@ def dv_id(value):
     return 99
 
 
+class Unusual:
+    """a VALUE (annotation or default) with an unusual ==: mode 'anyeq' equals everything (unittest.mock.ANY), 'notruth' answers == / != with an
+    object that has no truth value (arrays), 'raises' raises from == / !=, 'never' is not even equal to itself (NaN)"""
+
+    def __init__(self, mode, an=0, dv=0):
+        self.mode, self.verif_an_id, self.verif_dv_id = mode, an, dv
+
+    def _cmp(self, eq):
+        if self.mode == 'anyeq':
+            return eq
+        if self.mode == 'never':
+            return not eq
+        if self.mode == 'raises':
+            raise RuntimeError('comparison refused')
+        return _NoTruth()
+
+    def __eq__(self, other):
+        return self._cmp(True)
+
+    def __ne__(self, other):
+        return self._cmp(False)
+
+    __hash__ = object.__hash__
+
+    def __repr__(self):
+        return 'U_%s' % self.mode
+
+
+class _NoTruth:
+    def __bool__(self):
+        raise TypeError('truth value is ambiguous')
+
+
 def an_id(value):
     if value is inspect.Parameter.empty:
         return 0
+    if type(value) is Unusual:
+        return value.verif_an_id
     if isinstance(value, Sentinel) and value.tag == 'A':
         return value.id
     if isinstance(value, str) and value in STR_ANN:
@@ -76,7 +113,7 @@ STR_ANN = {'A1': 81, 'free text !': 82}
 
 # annotation ids whose TEXT is an expression that raises when a postponed annotation is evaluated
 ANN_TEXT = {91: 'A1.no_such_attribute', 92: "(1)['x']", 93: 'Name_not_defined_anywhere',
-            94: 'NANV', 95: 'WEIRD'}       # names bound (by the caller) to values with an unusual ==: NaN, an object whose __eq__ answers with a string
+            94: 'NANV', 95: 'WEIRD', 97: 'Marker()'}       # names bound (by the caller) to values with an unusual ==: NaN, an object whose __eq__ answers with a string
 
 
 def render_params(ps, annotations=True):
